@@ -135,6 +135,13 @@ BUILT["C33"] = ("E3", "exploration", "deterministic simulation over the virtual 
 BUILT["C34"] = ("E3", "exploration", "seeded ConfigBuilder setter sequences; accepted configs checked against the documented inequalities and then run in a real Behaviour (peers, GRAFTs, disconnects, heartbeats on the virtual clock), panic = violation",
   "Default and per-topic mesh parameters 0..13, transmit sizes around 100, history windows 0..6; 0..24 peers; 2..8 heartbeats",
   E3_NOTE + "; one known finding (per-topic parameters without per-topic max_transmit_size are not validated; an existing unit test depends on it)", "5/C34")
+E2P_NOTE = "stub stack below the protocol: SimTransport/SimMuxer (security and muxing are covered by E1); the behaviour under test, its handlers, the Swarm, the pool and multistream-select are real; counterpart peers are scripted (raw uvi-framed protobuf written by the harness) where the property quantifies over arbitrary/byzantine requests"
+BUILT["C47"] = ("E2", "exploration", "deterministic simulation: real relay::Behaviour in a real Swarm, scripted hop/stop clients with several connections, virtual-clock expiry; the relay's own event stream folded into active reservations/circuits and checked after every event",
+  "Seeded limits (1..6 total, 1..3 per peer), RESERVE/CONNECT/close/time sequences incl. racing requests; invariants on reservations per peer/total and circuits per involved peer/total",
+  E2P_NOTE, "5/C47")
+BUILT["C48"] = ("E2", "exploration", "seeded timestamped request sequences against the real per-peer and per-IP limiter (built through relay::Config); sliding-window token-bucket oracle over every pair of accepted requests",
+  "limit 1..5, intervals 1 ms..1 min, 3 peers x 3 IPs, steps at 0, interval fractions/multiples and idle gaps; window bound, idle-acceptance, per-IP identity",
+  "the limiter takes the timestamp as an argument: the clock is the only nondeterminism and it is drawn by the simulator", "5/C48")
 NOT_YET = {}
 
 def main():
